@@ -11,12 +11,14 @@ def G(name, op, ns, tiers, extra=(), rc=RC, nc=4, extra_unwind=(), **kw):
     for f, k in [("GC_Set_Ptr", 1), ("GC_Mem_Ptr", 1), ("GC_Rem_Ptr", 3), ("GC_Mark_Item", 1), ("GC_Sweep", 0), ("GC_Mark", 1), ("GC_Mark_Stack", 2), ("GC_Recurse", 1)]:
         for i in range(k):
             us.append("%s.%d:%d" % (f, i, ns + 3))
-    us += list(extra_unwind)
+    keys = set(x.split(":")[0] for x in extra_unwind)
+    us = [x for x in us if x.split(":")[0] not in keys] + list(extra_unwind)
     return Ob("gc.%s.ns%d" % (name, ns), "C17/gc_step.c", defs=["NS=%d" % ns, "NC=%d" % nc, "OP=%s" % op, "CELLO_VERIF"] + list(extra), replace=["GC.c"],
               unwind=max(ns, nc) + 3, unwindset=us, checks=["bounds", "pointer", "div0"], tiers=tiers, replace_calls=rc, mem_gb=kw.pop("mem_gb", 8),
               desc="collector %s from an arbitrary valid %d-slot registry, %d managed cells" % (name, ns, nc), **kw)
 Q = ("quick", "thorough")
 T = ("thorough",)
+RECB = ["verif_destruct:3", "GC_Rem:3", "GC_Rem_Ptr:3", "verif_dealloc:3", "GC_Sweep.3:4", "GC_Sweep.1:9", "GC_Sweep.0:7", "GC_Sweep.2:7", "GC_Rem_Ptr.0:4"]
 MS = ["GC_Mark:verif_mark_stub", "GC_Sweep:verif_sweep_stub"]
 OBLIGATIONS = (
     [G("hash", "OP_HASH", 5, Q, rc=[])]
@@ -24,7 +26,7 @@ OBLIGATIONS = (
     + [G("mem.home%d" % h, "OP_MEM", 5, Q if h in (0, 3) else T, ["HOME=%d" % h]) for h in range(5)]
     + [G("rem.home%d" % h, "OP_REM", 5, Q if h in (1, 4) else T, ["HOME=%d" % h, "NO_OWNERSHIP"]) for h in range(5)]
     + [G("sweep.noown.nc3", "OP_SWEEP", 5, Q, ["NO_OWNERSHIP"], nc=3, timeout=1800),
-       G("sweep.own", "OP_SWEEP_OWN", 5, Q, nc=2, timeout=1800), G("sweep.own.swap", "OP_SWEEP_OWN", 5, Q, ["SWAP"], nc=2, timeout=1800),
+       G("sweep.own", "OP_SWEEP_OWN", 5, Q, nc=2, timeout=1800, extra_unwind=RECB), G("sweep.own.swap", "OP_SWEEP_OWN", 5, Q, ["SWAP"], nc=2, timeout=1800, extra_unwind=RECB),
        G("mark_item", "OP_MARK_ITEM", 5, Q, rc=RC + ["GC_Recurse:verif_recurse_stub"]),
        G("recurse", "OP_RECURSE", 5, Q, rc=RC + ["GC_Mark_Item:verif_item_stub"]),
        G("mark_top", "OP_MARK_TOP", 5, Q, rc=RC + ["GC_Mark_Item:verif_item_stub", "GC_Recurse:verif_recurse_stub"])]
